@@ -220,6 +220,9 @@ class NotApplicable(Exception):
     pass
 
 
+MATRIX_CLASS = {'dense': 'DenseMatrix', 'csc': 'CSCMatrix', 'csr': 'CSRMatrix', 'coo': 'COOMatrix'}
+
+
 def owner_indices(L, place):
     """spec positions of the outputs owned by the assembling system"""
     offs, n = out_offsets(L)
@@ -285,21 +288,31 @@ class Real:
             self.solver = 'DirectSolver(assemble_jac=False)'
         else:
             raise MachineryError('unknown format %r' % fmt)
-        try:
-            p.setup(force_alloc_complex=True)
-        except RuntimeError as e:
-            if L.get('rcdup') and 'duplicate subjacobian entries' in str(e):
-                raise NotApplicable('declare_partials refuses duplicated rows/cols entries')
-            raise
-        p.final_setup()
+        self._patched = None
         if fmt == 'coo':
-            # no option selects the COO matrix class; it is the base of CSC/CSR and is exercised by installing a
-            # SplitJacobian built on it where the group's assembled Jacobian goes
+            # no option selects the COO matrix class (it is the base of CSC/CSR): while this Problem lives, the 'csr'
+            # entry of the table System._get_assembled_jac reads is a SplitJacobian built on COOMatrix
+            import openmdao.core.system as osys
             from openmdao.jacobians.jacobian import SplitJacobian
             from openmdao.matrices.coo_matrix import COOMatrix
-            j = SplitJacobian(COOMatrix, system=owner)
-            owner._assembled_jac = owner._jacobian = j
-            owner._linear_solver._assembled_jac = j
+
+            class COOJacobian(SplitJacobian):
+                def __init__(self, system):
+                    super().__init__(COOMatrix, system=system)
+
+            self._patched = (osys._asm_jac_types, osys._asm_jac_types['csr'])
+            osys._asm_jac_types['csr'] = COOJacobian
+        try:
+            try:
+                p.setup(force_alloc_complex=True)
+            except RuntimeError as e:
+                if L.get('rcdup') and 'duplicate subjacobian entries' in str(e):
+                    raise NotApplicable('declare_partials refuses duplicated rows/cols entries')
+                raise
+            p.final_setup()
+        except BaseException:
+            self.close()
+            raise
         self.cplx = False
         # spec position -> position in the root vectors
         offs, n = out_offsets(L)
@@ -310,6 +323,11 @@ class Real:
             if b - a != L['outs'][i]['sz']:
                 raise MachineryError('size mismatch for %s' % out_name(L, i + 1))
             self.perm[offs[i]:offs[i] + b - a] = np.arange(a, b)
+
+    def close(self):
+        if self._patched is not None:
+            self._patched[0]['csr'] = self._patched[1]
+            self._patched = None
 
     def step(self, ev):
         p, m = self.p, self.p.model
@@ -348,7 +366,12 @@ class Real:
         L, S = self.L, self.owner
         j = S._assembled_jac
         if j is None:
+            if self.fmt in MATRIX_CLASS:
+                raise MachineryError('no assembled Jacobian in variant %s' % self.fmt)
             return []
+        for mtx in (j._dr_do_mtx,):
+            if mtx is not None and type(mtx).__name__ != MATRIX_CLASS.get(self.fmt):
+                raise MachineryError('variant %s runs on %s' % (self.fmt, type(mtx).__name__))
         out = []
         offs, n = out_offsets(L)
         pre = S.pathname + '.' if S.pathname else ''
@@ -401,6 +424,14 @@ def replay(L, variant, hist, nq=2):
         R = Real(L, tuple(variant), nq)
     except NotApplicable as e:
         return {'status': 'na', 'why': str(e), 'steps': 0}
+    try:
+        return _replay(R, hist)
+    finally:
+        R.close()
+
+
+def _replay(R, hist):
+    import traceback
     q = 0
     cplx = False
     for k, ev in enumerate(hist):
@@ -618,19 +649,32 @@ def run(ctx):
     ctx.register_predicates(PREDICATES)
 
     if getattr(ctx, 'replay', None):
+        # TLC recomputes the expectations along exactly the stored history, then the history is run on the real code
         with open(ctx.replay) as fh:
-            rec = json.load(fh)
-        scn = rec['scenario']
+            scn = json.load(fh)['scenario']
+        script = [{k: v for k, v in ev.items() if k not in ('asm', 're', 'im')} for ev in scn['history']]
+        mod = os.path.join(ctx.work, 'JacobianReplay.tla')
+        with open(mod, 'w') as fh:
+            fh.write('---- MODULE JacobianReplay ----\nEXTENDS JacobianMC\nRLayouts == <<%s>>\nScript == %s\n'
+                     'ScriptNext == Len(hist) < Len(Script) /\\ Do(Script[Len(hist) + 1])\n====\n'
+                     % (layout_to_tla(scn['layout']), to_tla(script)))
+        cfg = ctx.write_cfg('JacobianReplay.cfg', 'CONSTANTS\n  Layouts <- RLayouts\n  NQ = %d\n  Depth = %d\nINIT Init\nNEXT ScriptNext\n'
+                            'INVARIANT Denotes\nINVARIANT FormatsAgree\nINVARIANT Export\n' % (nq, len(script)))
+        r = ctx.tlc_check(mod, cfg, timeout=600, workers=1, coverage=False)
+        got = r.exports('EXP')
+        if len(got) != 1:
+            raise MachineryError('replay: the stored history is not a behaviour of the specification')
         quiet()
-        r = replay(scn['layout'], scn['variant'], scn['history'], nq)
-        print('replay: %s' % json.dumps({k: v for k, v in r.items() if k != 'fail'}))
-        if r['status'] == 'fail':
-            f = r['fail']
+        res = replay(scn['layout'], scn['variant'], got[0]['h'], nq)
+        print('replay: %s' % json.dumps({k: v for k, v in res.items() if k != 'fail'}))
+        if res['status'] == 'fail':
+            f = res['fail']
             ctx.violation(dict(scn, failed={k: f[k] for k in f if k not in ('expected', 'observed')}), f['expected'], f['observed'],
                           f['clause'], snippet=SNIPPET)
         ctx.impl = 1
-        ctx.sample({'replayed': ctx.replay, 'status': r['status']})
-        ctx.rule = 'replay of one stored scenario'
+        ctx.evaluations = res['steps']
+        ctx.sample({'replayed': ctx.replay, 'status': res['status'], 'history': script})
+        ctx.rule = 'replay of one stored scenario (expectations recomputed by TLC along the stored history)'
         return
 
     # 1. layouts: the fixed ones live in JacobianMC.tla, seeded random ones are added in a generated module
@@ -651,7 +695,7 @@ def run(ctx):
         raise MachineryError('no layout export')
     layouts = scn[0] + gen
     # 3. histories with the exact expectations
-    ntraces = 30 if quick else 300
+    ntraces = 60 if quick else 300
     cfg = ctx.write_cfg('JacobianGen_sim.cfg', head + 'INVARIANT Export\n')
     x = ctx.tlc_run(mod, cfg, simulate='num=%d' % ntraces, depth=depth + 1, seed=ctx.seed + 1, workers=1,
                     timeout=600 if quick else 2400)
